@@ -1450,6 +1450,11 @@ def print_direct(check: Check, repo: Repo, rule: str = "PRINT-DIRECT") -> None:
     rets = [r for r in walk_body(fn) if isinstance(r, ast.Return) and r.value is not None]
     for r in rets:
         v = r.value
+        if isinstance(v, ast.Name):
+            defs = [s_.value for s_ in walk_body(fn) if isinstance(s_, ast.Assign) and len(s_.targets) == 1
+                    and isinstance(s_.targets[0], ast.Name) and s_.targets[0].id == v.id]
+            if len(defs) == 1:
+                v = defs[0]
         ok = isinstance(v, ast.Call) and call_name(v) == "visit" and len(v.args) == 2 and "PrintAstVisitor" in unparse(v.args[1])
         check.ob(rule, r, f"print_ast: return {node_text(v, 60)}", ok,
                  "the visitor's result, unmodified" if ok else "the visitor's result is post-processed as a whole string")
